@@ -28,8 +28,8 @@ def run(ctx, model_ok):
     ctx.cov.setdefault("distinct_nontrivial", ost["oracle_ops"])
     ctx.cov.setdefault("samples", [{"oracle": ost}])
     ctx.cov["not_shown"] = [
-        "position= / orientation= / reset_path on a collection: modelled (Node.setPosition/setOrientation) and tied by the "
-        "correspondence stream and the oracle; the relative-pose theorem for them is not yet proved (move and rotate are)",
+        "reset_path on a collection is the composition position=(0,0,0); orientation=None, each proved; the composed statement is not spelled out",
+        "histories: each single operation is proved; the composed index map over a whole history is not stated as one theorem",
         "own_sensor_field_invariant needs C03 (covariance) for the field kernels; observed by the oracle only",
     ]
     ctx.assumptions += ["scipy Rotation is a group acting linearly on R^3", "np.pad(edge)/slicing behave as edgePad/mapSlice"]
